@@ -50,7 +50,7 @@ int kindFromName(const char* s);
 
 enum { PH_SETUP = 0, PH_BODY = 1, PH_TEARDOWN = 2, PH_PRE = 3, PH_POST = 4, PH_PROC = 5 };
 enum { N_SLOTS = 48, N_TARGETS = 8, N_VALUES = 6, MAX_SET = SetPointerPlugin::MAX_SET };      // the documented limit is the library's own constant
-enum { N_PASS_KINDS = 15, N_FAILCPP_KINDS = 29, N_FAILC_KINDS = 20 };
+enum { N_PASS_KINDS = 15, N_FAILCPP_KINDS = 35, N_FAILC_KINDS = 20 };
 // Operand pairs for the string comparisons of K_FAIL_CPP kinds 24..27 (b = pair): the operands differ first at index 'at'. Several pairs differ only in
 // bytes whose printed forms coincide (every byte above 0x7f is rendered alike), contain control characters, are empty or long.
 struct OperandPair { const char* expected; const char* actual; int at; };
@@ -64,14 +64,15 @@ inline const BitsCase& bitsCase(int64_t i) {
         { 1, 1UL, 0UL, 1UL }, { 2, 0x0100UL, 0UL, 0x0100UL }, { 4, 0x00010000UL, 0UL, 0x00ff0000UL }, { 8, 0x0000000100000000UL, 0UL, 0x000000ff00000000UL } };
     return t[(size_t)(i < 0 ? 0 : i) % N_BITS_CASES];
 }
-enum { N_OPERAND_PAIRS = 11 };
+enum { N_OPERAND_PAIRS = 12 };
 inline const OperandPair& operandPair(int64_t i) {
     static char longA[400], longB[400]; static bool init = false;
     if (!init) { init = true; for (int k = 0; k < 399; k++) longA[k] = longB[k] = (char)(0x80 + k % 64); longA[398] = (char)0xf1; longB[398] = (char)0xf2; longA[399] = longB[399] = 0; }
     static const OperandPair t[N_OPERAND_PAIRS] = {
         { "\x80", "\x81", 0 }, { "caf\xc3\xa9", "caf\xc3\xa8", 4 }, { "a\x01z", "a\x02z", 1 }, { "", "x", 0 }, { "same\xffprefix\xfe", "same\xffprefix\xfd", 11 },
         { "line\nbreak", "line\rbreak", 4 }, { longA, longB, 398 }, { "abc", "abd", 2 }, { "\xe2\x82\xac 5", "\xe2\x82\xad 5", 2 }, { "tail\x90", "tail\x90\x91", 5 },
-        { "a\x01", "a\\x01", 1 } };      // a control character against the four characters of its own escape: the printed forms are the same text
+        { "a\x01", "a\\x01", 1 },
+        { "x\nA\tq", "x\nB\tq", 2 } };      // the shared prefix holds a character that is printed as two: the position is the one in the operands, not in their printed forms      // a control character against the four characters of its own escape: the printed forms are the same text
     return t[(size_t)(i < 0 ? 0 : i) % N_OPERAND_PAIRS];
 }
 
